@@ -68,12 +68,48 @@ theorem zz_max_binding (σ : Nat → Exp) :
   refine ⟨_, rfl, ?_⟩
   norm_num [Exp.halfturns?, Exp.subst]
 
+/-- **C20 (functional wrappers)**: for every wrapper of `std/quantum/functional.py` and
+    `std/qsystem/functional.py` and all actual arguments, the call applies exactly what the in-place
+    function of the same name applies to the same arguments in the same order (and that is defined),
+    and returns its qubit arguments in declaration order, followed by the bit of the wrapped call where
+    there is one. -/
+theorem functional_faithful :
+    ∀ f ∈ Spec.functional, ∀ σ : Nat → Exp,
+      emit Gen.table fuel f.modl f.name (actuals f.arity σ) =
+          emit Gen.table fuel f.baseModl f.name (actuals f.arity σ) ∧
+        (emit Gen.table fuel f.modl f.name (actuals f.arity σ)).isSome = true ∧
+        returnsOf Gen.table f.modl f.name (actuals f.arity σ) = some (f.expectedReturns σ) := by
+  intro f hf σ
+  simp only [Spec.functional, List.mem_cons, List.not_mem_nil, or_false] at hf
+  rcases hf with rfl | rfl | rfl | rfl | rfl | rfl | rfl | rfl | rfl | rfl | rfl | rfl | rfl | rfl |
+    rfl | rfl | rfl | rfl | rfl | rfl | rfl | rfl | rfl | rfl | rfl | rfl | rfl | rfl | rfl <;>
+    exact ⟨rfl, rfl, rfl⟩
+
+/-- **C20 (functional wrappers, signatures)**: qubits `@owned` first, then angles. -/
+theorem functional_signature_faithful :
+    ∀ f ∈ Spec.functional, (lookup Gen.table f.modl f.name).map (·.params) = some f.paramKinds := by
+  decide
+
+/-- **C20 (functional wrapper = documented gate)**: a wrapper whose in-place namesake is a documented
+    single-op gate applies exactly that op, caller qubit i on port i, angles as documented. -/
+theorem functional_gate :
+    ∀ f ∈ Spec.functional, ∀ g ∈ Spec.gates, g.modl = f.baseModl → g.name = f.name →
+      ∀ σ : Nat → Exp,
+        emit Gen.table fuel f.modl f.name (actuals f.arity σ) = some (g.expected σ) := by
+  intro f hf g hg h1 h2 σ
+  have har : ∀ f ∈ Spec.functional, ∀ g ∈ Spec.gates, g.modl = f.baseModl → g.name = f.name →
+      g.arity = f.arity := by decide
+  have h3 := har f hf g hg h1 h2
+  rw [(functional_faithful f hf σ).1, ← h1, ← h2, ← h3]
+  exact binding_faithful g hg σ
+
 /-- **C20 (coverage, spec → table)**: every function the specification documents exists in the source. -/
 theorem coverage_spec_to_table :
     ∀ k ∈ Spec.allNames, (lookup Gen.table k.1 k.2).isSome = true := by
   decide
 
-/-- **C20 (coverage, table → spec)**: every function found in `std/quantum` and `std/qsystem` is
+/-- **C20 (coverage, table → spec)**: every top-level function of every module found under
+    `std/quantum/` and `std/qsystem/` (functional wrappers and utility modules included) is
     accounted for by the specification (a newly added gate is noticed). -/
 theorem coverage_table_to_spec :
     ∀ r ∈ Gen.table, (r.modl, r.name) ∈ Spec.allNames := by
@@ -88,7 +124,7 @@ theorem names_distinct :
 /-- **C20 (opaque rows)**: the only bodies the translator could not read as straight-line code are
     the ones the specification lists as unmodelled. -/
 theorem opaque_rows_listed :
-    ∀ r ∈ Gen.table, r.binding = .opaque → (r.modl, r.name) ∈ Spec.unmodelled := by
+    ∀ r ∈ Gen.table, r.binding = .opaque → (r.modl, r.name) ∈ Spec.unmodelled ++ Spec.utilities := by
   decide
 
 /-- the constant `std.angles.pi` recorded by the translator is one half turn -/
@@ -97,7 +133,10 @@ theorem pi_constant_faithful : Gen.piHalfturnsNum = 1 ∧ Gen.piHalfturnsDen = 1
 
 /-! Non-vacuity: the specification is non-empty, a concrete swapped-argument call puts the caller's
     qubits on the ports in the order passed, and a wrong arity is an error rather than a gate. -/
-example : Spec.gates.length = 38 ∧ Gen.table.length = 43 := by decide
+example : Spec.gates.length = 38 ∧ Spec.functional.length = 29 ∧ Gen.table.length = 76 := by decide
+example : emit Gen.table fuel "quantum.functional" "cy" [.p 1, .p 0] =
+    some [⟨"tket.quantum.CY", [.val (.p 1), .val (.p 0)]⟩] ∧
+    returnsOf Gen.table "quantum.functional" "cy" [.p 1, .p 0] = some [.p 1, .p 0] := by decide
 example : emit Gen.table fuel "quantum" "cx" [.p 1, .p 0] =
     some [⟨"tket.quantum.CX", [.val (.p 1), .val (.p 0)]⟩] := by decide
 example : emit Gen.table fuel "quantum" "crz" [.p 1, .p 0, .mulN (.p 2) 2] =
